@@ -27,7 +27,7 @@ VNum(i)   == VR("num", i, <<>>, "", <<>>, <<>>)
 VBool(b)  == VR("bool", b, <<>>, "", <<>>, <<>>)
 VNull(t)  == VR("null", t, <<>>, "", <<>>, <<>>)
 
-Words == {"for", "in", "if", "null", "true", "else", "endif", "a-b", "1a", "a.b", ""}
+Words == {"for", "in", "if", "null", "true", "else", "endif", "a-b", "1a", "a.b", "", "-", "-a", "-07", "_", "a_1", "a-"}
 NNumbers == 12
 
 KeyVals == {VWord(w) : w \in Words} \cup {VStr(<<c>>) : c \in Alphabet} \cup {VStr(<<"a", "SP", "b">>), VStr(<<"DOLLAR", "LBRACE">>)}
